@@ -620,8 +620,10 @@ func evalC18(b *Build, run *spec.Run, rc *refCache, dir string, timeout time.Dur
 	res, info, err := b.execInfo("race", run, dir, timeout)
 	out.wallS = info.WallS
 	if info.TimedOut {
-		out.viols = append(out.viols, Violation{Prop: "C18", Class: "hang", Sig: "hang: run did not finish within the watchdog",
-			Detail: "worker killed by watchdog; " + tail(info.Stderr, 400)})
+		// Not a verdict: a runaway loop ends at the step cap and a lock cycle at the shim's
+		// deadlock sentinel, both deterministically and inside the run. A wall-clock watchdog
+		// firing means the machine (or the harness) is in trouble: exit 2.
+		out.infra = "worker killed by the wall-clock watchdog; " + tail(info.Stderr, 400)
 		return out
 	}
 	if err != nil {
